@@ -42,18 +42,20 @@ PFail(m) == pErr' = m /\ UNCHANGED <<good, seqOf, subOk, subFail, applying, appl
 Rng(s) == {s[i] : i \in DOMAIN s}
 Seq0(b) == IF b \in DOMAIN seqOf THEN seqOf[b] ELSE -1
 
+\* A failed submission gives its number back, and the next submitter may log its SubSeq before
+\* the driver has logged the failed one's SubRet: sharing is judged when a submission SUCCEEDS.
 EvSubSeq(b, seq) ==
-    IF \E c \in DOMAIN seqOf : c # b /\ seqOf[c] = seq /\ c \notin subFail
-        THEN PFail("C44 SubSeq: sequence number already held by a submission that has not failed")
-    ELSE /\ seqOf' = [x \in DOMAIN seqOf \cup {b} |-> IF x = b THEN seq ELSE seqOf[x]]
-         /\ UNCHANGED <<good, subOk, subFail, applying, applied, applyDone, results, drainSnap, draining,
-                        stopCalled, stopRet, pErr>>
+    /\ seqOf' = [x \in DOMAIN seqOf \cup {b} |-> IF x = b THEN seq ELSE seqOf[x]]
+    /\ UNCHANGED <<good, subOk, subFail, applying, applied, applyDone, results, drainSnap, draining,
+                   stopCalled, stopRet, pErr>>
 
 EvSubRet(b, out) ==
-    /\ subOk' = IF out = "ok" THEN subOk \cup {b} ELSE subOk
-    /\ subFail' = IF out # "ok" THEN subFail \cup {b} ELSE subFail
-    /\ UNCHANGED <<good, seqOf, applying, applied, applyDone, results, drainSnap, draining,
-                   stopCalled, stopRet, pErr>>
+    IF out = "ok" /\ \E c \in subOk : c # b /\ Seq0(c) = Seq0(b)
+        THEN PFail("C44 SubRet: two successful submissions share one sequence number")
+    ELSE /\ subOk' = IF out = "ok" THEN subOk \cup {b} ELSE subOk
+         /\ subFail' = IF out # "ok" THEN subFail \cup {b} ELSE subFail
+         /\ UNCHANGED <<good, seqOf, applying, applied, applyDone, results, drainSnap, draining,
+                        stopCalled, stopRet, pErr>>
 
 EvApplyCall(b) ==
     IF applying # 0 THEN PFail("C42 ApplyCall: two apply calls at the same time")
